@@ -280,7 +280,7 @@ pub fn gen_mc_ext(src: &mut Src, info: &mut Info, p: [bool; 4]) -> Value {
 /// COSE_Key for ECDH-ES+HKDF-256 on P-256 as sent by platforms: {1:2, 3:-25, -1:1, -2:x, -3:y}
 pub fn gen_cose_ecdh(src: &mut Src, info: &mut Info, p_alg: bool) -> Value {
     let mut m = vec![kv(1, Value::Uint(2))];
-    if info.opt(p_alg) {
+    if info.opt(p_alg || info.lossless) {
         m.push(kv(3, Value::int(-25)));
     }
     m.push(kv(-1, Value::Uint(1)));
